@@ -133,7 +133,7 @@ def run_executor(spec, acc):
 
 def jobs(tier, seed):
     out = [{"part": "files", "tier": tier}, {"part": "json", "tier": tier}, {"part": "modebits", "tier": tier},
-           {"part": "executor", "tier": tier}]
+           {"part": "executor", "tier": tier}, {"part": "reads", "tier": tier}]
     fv = len(file_values(tier))
     # step configurations, split by (label, shell) and by slices of the input maps
     for label in LABELS:
@@ -337,9 +337,101 @@ def run_files(spec, acc):
                     os.remove(path)
 
 
+def compositions(n, maxpart):
+    """All ways to read n bytes in pieces of 1..maxpart bytes."""
+    if n == 0:
+        yield ()
+        return
+    for k in range(1, min(n, maxpart) + 1):
+        for rest in compositions(n - k, maxpart):
+            yield (k, *rest)
+
+
+def run_reads(spec, acc):
+    """The digest of a file does not depend on how the operating system hands out its bytes:
+    with the chunk size rebound to 4, contents of 0..N bytes are served by a file object whose
+    every `readinto` returns the next piece of an enumerated composition (short reads before the
+    end of the file are what pipes, FUSE and network file systems do); every composition must
+    give the SHA-256 of the whole content, and a cancellation between any two reads must raise."""
+    import hashlib
+    import threading
+
+    from stepup.core import hash as su_hash
+    from stepup.core.exceptions import HashCancelledError
+
+    chunk = 4
+    top = 9 if spec["tier"] == "quick" else 12
+    saved_chunk = su_hash.HASH_CHUNK_SIZE
+    root = scratch_dir("c13r")
+    path = os.path.join(root, "f")
+
+    class Served:
+        def __init__(self, data, pieces, cancel_after=None, event=None):
+            self.data, self.pieces, self.pos, self.i = data, list(pieces), 0, 0
+            self.cancel_after, self.event = cancel_after, event
+
+        def __enter__(self):
+            return self
+
+        def __exit__(self, *exc):
+            return False
+
+        def readinto(self, buf):
+            if self.cancel_after is not None and self.i == self.cancel_after:
+                self.event.set()
+            want = self.pieces[self.i] if self.i < len(self.pieces) else 0
+            self.i += 1
+            n = min(want, len(buf), len(self.data) - self.pos)
+            buf[:n] = self.data[self.pos : self.pos + n]
+            self.pos += n
+            return n
+
+    try:
+        su_hash.HASH_CHUNK_SIZE = chunk
+        for n in range(top + 1):
+            data = bytes(range(1, n + 1))
+            with open(path, "wb") as fh:
+                fh.write(data)
+            want = hashlib.sha256(data).digest()
+            for pieces in compositions(n, chunk):
+                su_hash.open = lambda p, mode="rb", buffering=-1, pieces=pieces, data=data: Served(data, pieces)
+                acc.evaluations += 1
+                if any(k < chunk for k in pieces[:-1]):
+                    acc.nontrivial.add(h8(["reads", n, pieces]))
+                got = su_hash.compute_file_digest(path)
+                acc.states.add(h8([n, pieces]))
+                if got != want:
+                    hashed = next((m for m in range(n + 1) if hashlib.sha256(data[:m]).digest() == got), None)
+                    acc.violation("C13|short-read|digest-of-a-prefix" if hashed is not None
+                                  else f"C13|short-read|{n}|{pieces}",
+                                  {"why": "the digest depends on how the bytes were handed out",
+                                   "size": n, "reads": pieces, "bytes_hashed": hashed}, None)
+            # cancellation between any two reads
+            pieces = next(iter(compositions(n, chunk)), ())
+            for cut in range(len(pieces) + 1):
+                ev = threading.Event()
+                su_hash.open = lambda p, mode="rb", buffering=-1, pieces=pieces, data=data, cut=cut, ev=ev: Served(
+                    data, pieces, cut, ev)
+                acc.evaluations += 1
+                try:
+                    su_hash.compute_file_digest(path, cancel_event=ev)
+                    # the event was set during the last read (end of file): finishing is fine
+                    if cut < len(pieces):
+                        acc.violation(f"C13|cancel-ignored|{n}|{cut}", {"size": n, "cancelled_before_read": cut}, None)
+                except HashCancelledError:
+                    pass
+    finally:
+        su_hash.HASH_CHUNK_SIZE = saved_chunk
+        if "open" in vars(su_hash):
+            del su_hash.open
+
+
 def run_job(spec):
     acc = Acc()
     seen = {}
+    if spec["part"] == "reads":
+        run_reads(spec, acc)
+        return acc
     if spec["part"] == "inp":
         run_inp(spec, acc, seen)
     elif spec["part"] == "env":
